@@ -429,6 +429,44 @@ theorem GT_adjoint_of_parts {Lam E F V U Fu : Type} (pairE : Lam → E → K) (p
     ∀ l u, pairE l (errLin (J u)) = pairU (Jt (forces l)) u := by
   intro l u; rw [hc, hJ]
 
+/-! ## Ground → Ancestor conversion (`findRelativeVelocity`, `findRelativeAcceleration`) -/
+
+/-- the ancestor-frame origin velocity is the time derivative of the ancestor-frame origin location
+`p_AB = ~R_GA (p_GB − p_GA)` (no hypothesis at all) -/
+theorem relVel_v_is_derivative (XA XB : Xf K) (VA VB : SV K) :
+    epsV (relPose (jetX XA VA) (jetX XB VB)).p = (relVel XA VA XB VB).v := by
+  simp only [relPose, relVel]; to_scalars; refine ⟨?_, ?_, ?_⟩ <;> ring
+
+/-- the ancestor-frame spatial acceleration is the time derivative of the ancestor-frame spatial velocity -/
+theorem relAcc_is_derivative (XA XB : Xf K) (VA VB AA AB : SV K) :
+    epsV (relVel (jetX XA VA) (jetSV VA AA) (jetX XB VB) (jetSV VB AB)).w = (relAcc XA VA AA XB VB AB).w ∧
+    epsV (relVel (jetX XA VA) (jetSV VA AA) (jetX XB VB) (jetSV VB AB)).v = (relAcc XA VA AA XB VB AB).v := by
+  simp only [relVel, relAcc]; to_scalars; refine ⟨⟨?_, ?_, ?_⟩, ⟨?_, ?_, ?_⟩⟩ <;> ring
+
+/-- columns of `R` form a right-handed triad (`R` is a proper rotation) -/
+structure IsRightHanded (R : M33 K) : Prop where
+  h0 : R.col1.cross R.col2 = R.col0
+  h1 : R.col2.cross R.col0 = R.col1
+  h2 : R.col0.cross R.col1 = R.col2
+
+/-- re-expressing commutes with the cross product: `~R (a × b) = (~R a) × (~R b)`; this is what makes
+`w_AB = ~R_GA (w_GB − w_GA)` the angular velocity of `R_AB = ~R_GA R_GB` -/
+theorem tmulVec_cross {R : M33 K} (h : IsRightHanded R) (a b : V3 K) :
+    R.tmulVec (a.cross b) = (R.tmulVec a).cross (R.tmulVec b) := by
+  obtain ⟨h0, h1, h2⟩ := h
+  obtain ⟨⟨r00, r01, r02⟩, ⟨r10, r11, r12⟩, ⟨r20, r21, r22⟩⟩ := R
+  obtain ⟨a0, a1, a2⟩ := a; obtain ⟨b0, b1, b2⟩ := b
+  simp only [M33.col0, M33.col1, M33.col2, V3.cross, V3.mk.injEq] at h0 h1 h2
+  obtain ⟨h00, h01, h02⟩ := h0; obtain ⟨h10, h11, h12⟩ := h1; obtain ⟨h20, h21, h22⟩ := h2
+  simp only [M33.tmulVec, V3.cross, V3.mk.injEq]
+  refine ⟨?_, ?_, ?_⟩
+  · linear_combination (-(a1 * b2 - a2 * b1)) * h00 + (-(a2 * b0 - a0 * b2)) * h01 + (-(a0 * b1 - a1 * b0)) * h02
+  · linear_combination (-(a1 * b2 - a2 * b1)) * h10 + (-(a2 * b0 - a0 * b2)) * h11 + (-(a0 * b1 - a1 * b0)) * h12
+  · linear_combination (-(a1 * b2 - a2 * b1)) * h20 + (-(a2 * b0 - a0 * b2)) * h21 + (-(a0 * b1 - a1 * b0)) * h22
+
+example : IsRightHanded (⟨⟨1, 0, 0⟩, ⟨0, 1, 0⟩, ⟨0, 0, 1⟩⟩ : M33 K) := by
+  constructor <;> simp [M33.col0, M33.col1, M33.col2, V3.cross]
+
 end ring
 
 /-! ## Rod (needs `√` and a reciprocal: field) -/
